@@ -341,6 +341,12 @@ def _call(args):
         # miasmX prints diagnostics ("ERROR: b 15") on stdout; workers report through return values only
         sys.stdout = open(os.devnull, "w")
         sys.stdout._verif_null = True
+    lim = getattr(_WORKER_RUN, "mem_limit", None)
+    if lim and multiprocessing.current_process().name != "MainProcess":
+        # a generated case that makes the code under test allocate without bound must become a MemoryError inside this worker
+        # (an ordinary, classifiable exception), not an OOM kill of the machine
+        import resource
+        resource.setrlimit(resource.RLIMIT_AS, (lim, lim))
     st = Stats()
     _WORKER_FN(_WORKER_RUN, st, k, item)
     return st
@@ -356,9 +362,15 @@ def pmap(run, fn, items, procs=NCPU):
             run.absorb(_call((k, it)))
         return
     ctx = multiprocessing.get_context("fork")
-    with ctx.Pool(min(procs, len(items))) as pool:
-        for st in pool.imap(_call, list(enumerate(items))):
-            run.absorb(st)
+    from concurrent.futures import ProcessPoolExecutor
+    from concurrent.futures.process import BrokenProcessPool
+    # (a multiprocessing.Pool waits forever for the result of a worker that was killed; this executor notices)
+    with ProcessPoolExecutor(max_workers=min(procs, len(items)), mp_context=ctx) as ex:
+        try:
+            for st in ex.map(_call, list(enumerate(items))):
+                run.absorb(st)
+        except BrokenProcessPool:
+            raise Inconclusive("a worker process died abruptly (killed by the system?); nothing can be concluded from this run")
 
 
 class quiet(object):
